@@ -1,4 +1,428 @@
-import XgiModel.C19.Derived
+/-
+  C19 — derived networks satisfy their set-theoretic definitions.
+  Property theorems only; the model is C19/Derived.lean (+ the in-place functions of Core/HG.lean),
+  helper lemmas are in C19/Lemmas*.lean.  All statements are for well-formed networks (`HG.WF`,
+  the invariant C01 proves for every constructible network) whose attribute dicts have distinct
+  keys (`AttrWF`, true of every Python dict).
+-/
+import XgiModel.C19.Lemmas
+
 namespace Xgi.C19
-theorem placeholder : True := trivial
+open Xgi Xgi.HG
+
+/-! ### subhypergraph -/
+
+/-- `x` was asked for: no argument given, or listed in it -/
+def requested (arg : Option (List PyId)) (x : PyId) : Prop :=
+  match arg with
+  | none => True
+  | some l => x ∈ l
+
+theorem selected_iff (arg : Option (List PyId)) (all : List PyId) (x : PyId) :
+    selected arg all x = true ↔ x ∈ all ∧ requested arg x := by
+  cases arg <;> simp [selected, requested, and_comm]
+
+/-- `subhypergraph(H, nodes, edges)` (isolated nodes kept): exactly the requested nodes, exactly the
+    requested edges that lie inside them, in the original order, with their members and attributes,
+    the network attributes, and frozen. -/
+theorem subhypergraph_spec {s : HG} (h : WF s) (ha : AttrWF s) (nodesArg edgesArg : Option (List PyId)) :
+    (subhypergraph s nodesArg edgesArg true).2 = .ok ∧
+    (subhypergraph s nodesArg edgesArg true).1.nodes = s.nodes.filter (selected nodesArg s.nodes) ∧
+    (subhypergraph s nodesArg edgesArg true).1.edges = s.edges.filter (keptEdge s nodesArg edgesArg) ∧
+    (∀ e ∈ (subhypergraph s nodesArg edgesArg true).1.edges, (subhypergraph s nodesArg edgesArg true).1.mem e = s.mem e) ∧
+    (∀ n ∈ (subhypergraph s nodesArg edgesArg true).1.nodes, (subhypergraph s nodesArg edgesArg true).1.nattr n = s.nattr n) ∧
+    (∀ e ∈ (subhypergraph s nodesArg edgesArg true).1.edges, (subhypergraph s nodesArg edgesArg true).1.eattr e = s.eattr e) ∧
+    (subhypergraph s nodesArg edgesArg true).1.net = s.net ∧
+    (subhypergraph s nodesArg edgesArg true).1.frozen = true ∧
+    WF (subhypergraph s nodesArg edgesArg true).1 := by
+  obtain ⟨h1, h2⟩ := subStage_spec h ha nodesArg edgesArg
+  unfold subhypergraph
+  simp only [if_true]
+  rw [andThen_of_ok _ _ h1]
+  simp only []
+  exact ⟨trivial, h2.nodes, h2.edges, h2.mem, h2.nattr, h2.eattr, h2.net, trivial, wf_with h2.inv.1 _ _ _⟩
+
+/-- the reading of the statement: an edge is kept iff it was requested and all its members were -/
+theorem subhypergraph_edge_iff {s : HG} (h : WF s) (ha : AttrWF s) (nodesArg edgesArg : Option (List PyId))
+    (keep : Bool) (e : PyId) :
+    e ∈ (subhypergraph s nodesArg edgesArg keep).1.edges ↔
+      e ∈ s.edges ∧ requested edgesArg e ∧ ∀ n ∈ s.mem e, requested nodesArg n := by
+  obtain ⟨h1, h2⟩ := subStage_spec h ha nodesArg edgesArg
+  have key : e ∈ (subStage s nodesArg edgesArg).1.edges ↔
+      e ∈ s.edges ∧ requested edgesArg e ∧ ∀ n ∈ s.mem e, requested nodesArg n := by
+    rw [h2.edges, List.mem_filter]
+    simp only [keptEdge, Bool.and_eq_true, List.all_eq_true, selected_iff]
+    constructor
+    · rintro ⟨he, ⟨_, hr⟩, hall⟩; exact ⟨he, hr, fun n hn => (hall n hn).2⟩
+    · rintro ⟨he, hr, hall⟩; exact ⟨he, ⟨he, hr⟩, fun n hn => ⟨(h.e2n e he n hn).1, hall n hn⟩⟩
+  unfold subhypergraph
+  cases keep
+  · simp only [Bool.false_eq_true, if_false]
+    rw [andThen_of_ok _ _ h1]
+    have hiso := removeIsolated_spec (isolates (subStage s nodesArg edgesArg).1) (subStage s nodesArg edgesArg).1
+      (nodup_filter _ h2.inv.1.nodupN) (by
+        intro n hn
+        simp only [isolates, List.mem_filter, decide_eq_true_eq, List.length_eq_zero_iff] at hn
+        exact hn)
+    show e ∈ (removeNodesFrom _ _ false true).1.edges ↔ _
+    rw [hiso.2.2.1]; exact key
+  · simp only [if_true]
+    rw [andThen_of_ok _ _ h1]; exact key
+
+/-- `keep_isolates=False`: additionally the nodes that are left in no kept edge are dropped, nothing else changes -/
+theorem subhypergraph_drop_isolates_spec {s : HG} (h : WF s) (ha : AttrWF s) (nodesArg edgesArg : Option (List PyId)) :
+    (subhypergraph s nodesArg edgesArg false).2 = .ok ∧
+    (subhypergraph s nodesArg edgesArg false).1.nodes =
+      (s.nodes.filter (selected nodesArg s.nodes)).filter
+        (fun n => (s.edges.filter (keptEdge s nodesArg edgesArg)).any (fun e => decide (n ∈ s.mem e))) ∧
+    (subhypergraph s nodesArg edgesArg false).1.edges = s.edges.filter (keptEdge s nodesArg edgesArg) ∧
+    (∀ e ∈ (subhypergraph s nodesArg edgesArg false).1.edges, (subhypergraph s nodesArg edgesArg false).1.mem e = s.mem e) ∧
+    (∀ n ∈ (subhypergraph s nodesArg edgesArg false).1.nodes, (subhypergraph s nodesArg edgesArg false).1.nattr n = s.nattr n) ∧
+    (∀ e ∈ (subhypergraph s nodesArg edgesArg false).1.edges, (subhypergraph s nodesArg edgesArg false).1.eattr e = s.eattr e) ∧
+    (subhypergraph s nodesArg edgesArg false).1.net = s.net ∧
+    (subhypergraph s nodesArg edgesArg false).1.frozen = true := by
+  obtain ⟨h1, h2⟩ := subStage_spec h ha nodesArg edgesArg
+  unfold subhypergraph
+  simp only [Bool.false_eq_true, if_false]
+  rw [andThen_of_ok _ _ h1]
+  have hw := h2.inv.1
+  obtain ⟨g1, g2, g3, g4, g5, g6, g7, g8, g9, g10⟩ :=
+    removeIsolated_spec (isolates (subStage s nodesArg edgesArg).1) (subStage s nodesArg edgesArg).1
+      (nodup_filter _ hw.nodupN) (by
+        intro n hn
+        simp only [isolates, List.mem_filter, decide_eq_true_eq, List.length_eq_zero_iff] at hn
+        exact hn)
+  generalize (subStage s nodesArg edgesArg).1 = t at *
+  generalize removeNodesFrom t (isolates t) false true = u at *
+  refine ⟨g1, ?_, by rw [g3]; exact h2.edges, ?_, ?_, ?_, by show u.1.net = s.net; rw [g8]; exact h2.net, by first | rfl | trivial⟩
+  · show u.1.nodes = _
+    rw [g2, h2.nodes]
+    apply List.filter_congr
+    intro n hn
+    have hnt : n ∈ t.nodes := by rw [h2.nodes]; exact hn
+    -- n is isolated in t iff no kept edge contains it
+    have iso_iff : n ∈ isolates t ↔ t.memb n = [] := by
+      simp only [isolates, List.mem_filter, decide_eq_true_eq, hnt, true_and, List.length_eq_zero_iff]
+    rw [Bool.eq_iff_iff]
+    simp only [decide_eq_true_eq, List.any_eq_true, iso_iff]
+    constructor
+    · intro hne
+      cases hm : t.memb n with
+      | nil => exact absurd hm hne
+      | cons e _ =>
+        have he : e ∈ t.memb n := by rw [hm]; simp
+        have := hw.n2e n hnt e he
+        exact ⟨e, by rw [← h2.edges]; exact this.1, by rw [← h2.mem e this.1]; exact this.2⟩
+    · rintro ⟨e, he, hn'⟩
+      rw [← h2.edges] at he
+      have : e ∈ t.memb n := (hw.e2n e he n (by rw [h2.mem e he]; exact hn')).2
+      intro hnil; rw [hnil] at this; cases this
+  · intro e he; show u.1.mem e = s.mem e
+    rw [g4]; exact h2.mem e (by rw [← g3]; exact he)
+  · intro n hn; show u.1.nattr n = s.nattr n
+    rw [g7]; apply h2.nattr
+    have : n ∈ u.1.nodes := hn
+    rw [g2] at this; exact (List.mem_filter.1 this).1
+  · intro e he; show u.1.eattr e = s.eattr e
+    rw [g6]; exact h2.eattr e (by rw [← g3]; exact he)
+
+
+/-! ### dual -/
+
+/-- what `H.dual()` is, stated on the tables -/
+structure IsDual (s d : HG) : Prop where
+  edges : d.edges = s.nodes
+  nodes : ∀ x, x ∈ d.nodes ↔ x ∈ s.edges
+  mem : ∀ n ∈ s.nodes, d.mem n = s.memb n
+  memb : ∀ e ∈ s.edges, ∀ n, n ∈ d.memb e ↔ n ∈ s.mem e
+  eattr : ∀ n ∈ s.nodes, d.eattr n = s.nattr n
+  nattr : ∀ e ∈ s.edges, d.nattr e = s.eattr e
+  net : d.net = s.net
+  wf : WF d
+  attrWF : AttrWF d
+
+/-- the dual exchanges nodes and edges: its edges are the nodes of `H` (in order) with the memberships as
+    members and the node attributes, its nodes are the edges of `H` with the edge attributes -/
+theorem dual_spec {s : HG} (h : WF s) (ha : AttrWF s) : (dual s).2 = .ok ∧ IsDual s (dual s).1 := by
+  unfold dual
+  simp only []
+  have he := addItems_spec s.nodes id s.memb s.nattr HG.empty (by simpa using h.nodupN) (by
+    intro n hn
+    exact ⟨ne_none_of_mem h.noNoneN hn, by simp [HG.empty], wf_none_not_memb h hn⟩)
+  have he' : (s.nodes.map (fun n => ({ members := s.memb n, idx := some n, attr := s.nattr n } : EdgeItem))) =
+      mkItems s.nodes id s.memb s.nattr := rfl
+  rw [he']
+  have hi1 : Inv (addEdgesFrom HG.empty .f4 (mkItems s.nodes id s.memb s.nattr) []).1 := addEdgesFrom_inv empty_inv _ _ _
+  obtain ⟨he1, he2⟩ := he
+  generalize addEdgesFrom HG.empty .f4 (mkItems s.nodes id s.memb s.nattr) [] = r1 at *
+  rw [andThen_of_ok r1 _ he1]
+  have hn := addPairs_spec s.edges id s.eattr r1.1 (by simpa using h.nodupE) (fun x hx => ne_none_of_mem h.noNoneE hx)
+  have hn' : s.edges.map (fun e => (e, some (s.eattr e))) = s.edges.map (fun x => (id x, some (s.eattr x))) := rfl
+  rw [hn']
+  have hi2 : Inv (addNodesFrom r1.1 (s.edges.map (fun x => (id x, some (s.eattr x)))) []).1 := addNodesFrom_inv hi1 _ _
+  obtain ⟨hn1, hn2⟩ := hn
+  generalize addNodesFrom r1.1 (s.edges.map (fun x => (id x, some (s.eattr x)))) [] = r2 at *
+  refine ⟨hn1, ?_⟩
+  have hw : WF { r2.1 with net := s.net } := by
+    have := wf_with hi2.1 s.net r2.1.uid r2.1.frozen; exact this
+  have hr1nodes : ∀ x, x ∈ r1.1.nodes → x ∈ s.edges := by
+    intro x hx
+    rcases (he2.nodes_mem x).1 hx with hx | ⟨n, hn, hx⟩
+    · simp [HG.empty] at hx
+    · exact (h.n2e n hn x hx).1
+  have hnodes : ∀ x, x ∈ r2.1.nodes ↔ x ∈ s.edges := by
+    intro x; rw [hn2.nodes, foldl_ins_mem]; simp only [List.map_id_fun, id_eq]
+    constructor
+    · rintro (hx | hx)
+      · exact hr1nodes x hx
+      · exact hx
+    · intro hx; exact Or.inr hx
+  have hedges : r2.1.edges = s.nodes := by
+    rw [hn2.edges, he2.edges]; simp [HG.empty]
+  have hmem : ∀ n ∈ s.nodes, r2.1.mem n = s.memb n := by
+    intro n hn
+    rw [hn2.mem]
+    have := he2.mem_new n hn; simp only [id_eq] at this
+    rw [this, dedup_of_nodup (h.setN n hn)]
+  have hnattr : ∀ e ∈ s.edges, r2.1.nattr e = s.eattr e := by
+    intro e he
+    have := hn2.nattr_new e he; simp only [id_eq] at this
+    rw [this]
+    have : (if e ∈ r1.1.nodes then r1.1.nattr e else []) = [] := by
+      split
+      · rename_i hin; exact he2.nattr_new e (by simp [HG.empty]) hin
+      · rfl
+    rw [this, update_nil (ha.eattr e he), update_nil (ha.eattr e he)]
+  have heattr : ∀ n ∈ s.nodes, r2.1.eattr n = s.nattr n := by
+    intro n hn
+    rw [hn2.eattr]
+    have := he2.eattr_new n hn; simp only [id_eq] at this
+    rw [this, update_nil (ha.nattr n hn), update_nil (ha.nattr n hn)]
+  constructor
+  · exact hedges
+  · exact hnodes
+  · exact hmem
+  · intro e he n
+    show n ∈ r2.1.memb e ↔ n ∈ s.mem e
+    have hen : e ∈ r2.1.nodes := (hnodes e).2 he
+    constructor
+    · intro hm
+      have := hi2.1.n2e e hen n hm
+      rw [hedges] at this
+      rw [hmem n this.1] at this
+      exact (h.n2e n this.1 e this.2).2
+    · intro hm
+      have hn := (h.e2n e he n hm)
+      have : e ∈ r2.1.mem n := by rw [hmem n hn.1]; exact hn.2
+      exact (hi2.1.e2n n (by rw [hedges]; exact hn.1) e this).2
+  · exact heattr
+  · exact hnattr
+  · rfl
+  · exact hw
+  · constructor
+    · intro e he; show AttrsOK (r2.1.nattr e)
+      have he' : e ∈ s.edges := (hnodes e).1 he
+      rw [hnattr e he']; exact ha.eattr e he'
+    · intro n hn; show AttrsOK (r2.1.eattr n)
+      have hn' : n ∈ s.nodes := by rw [← hedges]; exact hn
+      rw [heattr n hn']; exact ha.nattr n hn'
+    · exact ha.net
+
+/-- the dual is an involution (up to the order of nodes and edges, which the dual takes from Python set
+    iteration): `H.dual().dual()` has the nodes, edges, members and attributes of `H`.  It holds for every
+    well-formed network — isolated nodes and empty edges turn into each other and back. -/
+theorem dual_involution {s : HG} (h : WF s) (ha : AttrWF s) :
+    (dual (dual s).1).2 = .ok ∧
+    (∀ n, n ∈ (dual (dual s).1).1.nodes ↔ n ∈ s.nodes) ∧
+    (∀ e, e ∈ (dual (dual s).1).1.edges ↔ e ∈ s.edges) ∧
+    (∀ e ∈ s.edges, ∀ n, n ∈ (dual (dual s).1).1.mem e ↔ n ∈ s.mem e) ∧
+    (∀ n ∈ s.nodes, (dual (dual s).1).1.nattr n = s.nattr n) ∧
+    (∀ e ∈ s.edges, (dual (dual s).1).1.eattr e = s.eattr e) ∧
+    (dual (dual s).1).1.net = s.net ∧ WF (dual (dual s).1).1 := by
+  obtain ⟨_, d1⟩ := dual_spec h ha
+  obtain ⟨o2, d2⟩ := dual_spec d1.wf d1.attrWF
+  generalize (dual s).1 = d at *
+  generalize (dual d).1 = dd at *
+  refine ⟨o2, ?_, ?_, ?_, ?_, ?_, by rw [d2.net, d1.net], d2.wf⟩
+  · intro n; rw [d2.nodes, d1.edges]
+  · intro e; rw [d2.edges, d1.nodes]
+  · intro e he n
+    rw [d2.mem e ((d1.nodes e).2 he)]; exact d1.memb e he n
+  · intro n hn
+    rw [d2.nattr n (by rw [d1.edges]; exact hn)]; exact d1.eattr n hn
+  · intro e he
+    rw [d2.eattr e ((d1.nodes e).2 he)]; exact d1.nattr e he
+
+/-- the wording of the statement: on networks without isolated nodes or empty edges -/
+theorem dual_involution_no_isolates_no_empty {s : HG} (h : WF s) (ha : AttrWF s)
+    (_hiso : ∀ n ∈ s.nodes, s.memb n ≠ []) (_hemp : ∀ e ∈ s.edges, s.mem e ≠ []) :
+    (∀ n, n ∈ (dual (dual s).1).1.nodes ↔ n ∈ s.nodes) ∧
+    (∀ e, e ∈ (dual (dual s).1).1.edges ↔ e ∈ s.edges) ∧
+    (∀ e ∈ s.edges, ∀ n, n ∈ (dual (dual s).1).1.mem e ↔ n ∈ s.mem e) :=
+  let r := dual_involution h ha
+  ⟨r.2.1, r.2.2.1, r.2.2.2.1⟩
+
+/-! ### `<<` -/
+
+/-- `H1 << H2`: the nodes are the union (those of `H1` first), the edges are the disjoint union in order
+    under the fresh IDs 0,1,2,… with their own members and attributes, node and network attributes are
+    merged with `H2` winning. -/
+theorem lshift_spec {s t : HG} (hs : WF s) (ht : WF t) (has : AttrWF s) (hat : AttrWF t)
+    (hal : Aligned s) (hal' : Aligned t) :
+    (lshift s t).2 = .ok ∧
+    (lshift s t).1.nodes = s.nodes ++ t.nodes.filter (· ∉ s.nodes) ∧
+    (lshift s t).1.edges = (List.range (s.edges.length + t.edges.length)).map (fun j => PyId.int (j : Nat)) ∧
+    (lshift s t).1.edges.map (lshift s t).1.mem = s.edges.map s.mem ++ t.edges.map t.mem ∧
+    (lshift s t).1.edges.map (lshift s t).1.eattr = s.edges.map s.eattr ++ t.edges.map t.eattr ∧
+    (∀ n ∈ (lshift s t).1.nodes, (lshift s t).1.nattr n =
+      Attrs.update (if n ∈ s.nodes then s.nattr n else []) (if n ∈ t.nodes then t.nattr n else [])) ∧
+    (lshift s t).1.net = s.net.update t.net ∧ (lshift s t).1.frozen = false ∧ WF (lshift s t).1 := by
+  unfold lshift
+  simp only []
+  rw [zipNodeAttrs_eq hal, zipNodeAttrs_eq hal', zipEdgeAttrs_eq hal, zipEdgeAttrs_eq hal']
+  -- nodes of H1
+  obtain ⟨a1, a2⟩ := addPairs_spec s.nodes id s.nattr HG.empty (by simpa using hs.nodupN)
+    (fun x hx => ne_none_of_mem hs.noNoneN hx)
+  have i1 : Inv (addNodesFrom HG.empty (s.nodes.map (fun x => (id x, some (s.nattr x)))) []).1 :=
+    addNodesFrom_inv empty_inv _ _
+  generalize addNodesFrom HG.empty (s.nodes.map (fun x => (id x, some (s.nattr x)))) [] = r1 at *
+  rw [andThen_of_ok r1 _ a1]
+  have n1 : r1.1.nodes = s.nodes := by
+    rw [a2.nodes]; simp only [List.map_id_fun, id_eq, HG.empty]; exact foldl_ins_nil_of_nodup hs.nodupN
+  -- nodes of H2
+  obtain ⟨b1, b2⟩ := addPairs_spec t.nodes id t.nattr r1.1 (by simpa using ht.nodupN)
+    (fun x hx => ne_none_of_mem ht.noNoneN hx)
+  have i2 : Inv (addNodesFrom r1.1 (t.nodes.map (fun x => (id x, some (t.nattr x)))) []).1 := addNodesFrom_inv i1 _ _
+  generalize addNodesFrom r1.1 (t.nodes.map (fun x => (id x, some (t.nattr x)))) [] = r2 at *
+  rw [andThen_of_ok r2 _ b1]
+  have n2 : r2.1.nodes = s.nodes ++ t.nodes.filter (· ∉ s.nodes) := by
+    rw [b2.nodes, n1]; simp only [List.map_id_fun, id_eq]; exact foldl_ins_append_filter _ _ ht.nodupN
+  have e2 : r2.1.edges = [] := by rw [b2.edges, a2.edges]; rfl
+  have u2 : r2.1.uid = 0 := by rw [b2.uid, a2.uid]; rfl
+  -- edges of H1
+  rw [addEdgesFrom_f3]
+  obtain ⟨c1, c2, c3, c4⟩ := bulk_auto .f3 (Or.inr rfl)
+    (s.edges.map (fun e => ({ members := s.mem e, idx := none, attr := s.eattr e } : EdgeItem))) r2.1 i2.2 (by
+      intro it hit; simp only [List.mem_map] at hit; obtain ⟨e, he, rfl⟩ := hit; exact wf_none_not_mem hs he)
+  have i3 : Inv (bulk (addEdgesItem .f3 []) r2.1
+      (s.edges.map (fun e => ({ members := s.mem e, idx := none, attr := s.eattr e } : EdgeItem)))).1 := by
+    have := addEdgesFrom_inv i2 .f3 (s.edges.map (fun e => ({ members := s.mem e, idx := none, attr := s.eattr e } : EdgeItem))) []
+    rw [addEdgesFrom_f3] at this; exact this
+  generalize bulk (addEdgesItem .f3 []) r2.1
+      (s.edges.map (fun e => ({ members := s.mem e, idx := none, attr := s.eattr e } : EdgeItem))) = r3 at *
+  rw [andThen_of_ok r3 _ c1, addEdgesFrom_f3]
+  simp only [List.length_map, u2, Nat.zero_add] at c2 c3
+  -- edges of H2
+  obtain ⟨d1, d2, d3, d4⟩ := bulk_auto .f3 (Or.inr rfl)
+    (t.edges.map (fun e => ({ members := t.mem e, idx := none, attr := t.eattr e } : EdgeItem))) r3.1 i3.2 (by
+      intro it hit; simp only [List.mem_map] at hit; obtain ⟨e, he, rfl⟩ := hit; exact wf_none_not_mem ht he)
+  have i4 : Inv (bulk (addEdgesItem .f3 []) r3.1
+      (t.edges.map (fun e => ({ members := t.mem e, idx := none, attr := t.eattr e } : EdgeItem)))).1 := by
+    have := addEdgesFrom_inv i3 .f3 (t.edges.map (fun e => ({ members := t.mem e, idx := none, attr := t.eattr e } : EdgeItem))) []
+    rw [addEdgesFrom_f3] at this; exact this
+  generalize bulk (addEdgesItem .f3 []) r3.1
+      (t.edges.map (fun e => ({ members := t.mem e, idx := none, attr := t.eattr e } : EdgeItem))) = r4 at *
+  simp only [List.length_map, c3] at d2 d3
+  -- abbreviations for the two batches of items
+  generalize hI1 : autoItems 0 (s.edges.map (fun e => ({ members := s.mem e, idx := none, attr := s.eattr e } : EdgeItem))) = I1 at *
+  generalize hI2 : autoItems s.edges.length (t.edges.map (fun e => ({ members := t.mem e, idx := none, attr := t.eattr e } : EdgeItem))) = I2 at *
+  have ids1 : I1.map (·.1) = (List.range' 0 s.edges.length).map (fun j => PyId.int (j : Nat)) := by
+    rw [← hI1, autoItems_ids]; simp
+  have ids2 : I2.map (·.1) = (List.range' s.edges.length t.edges.length).map (fun j => PyId.int (j : Nat)) := by
+    rw [← hI2, autoItems_ids]; simp
+  have n3 : r3.1.nodes = r2.1.nodes := c2.nodes_same (by
+    intro it hit n hn
+    rw [← hI1] at hit
+    have : it.2.1 ∈ (autoItems 0 (s.edges.map (fun e => ({ members := s.mem e, idx := none, attr := s.eattr e } : EdgeItem)))).map (fun it => it.2.1) :=
+      List.mem_map_of_mem (f := fun (it : Item) => it.2.1) hit
+    rw [autoItems_map_snd (fun p => p.1)] at this
+    simp only [List.map_map, List.mem_map, Function.comp] at this
+    obtain ⟨e, he, heq⟩ := this
+    rw [← heq] at hn; simp only [mem_dedup] at hn
+    rw [n2]; exact List.mem_append_left _ (hs.e2n e he n hn).1)
+  have n4 : r4.1.nodes = r3.1.nodes := d2.nodes_same (by
+    intro it hit n hn
+    rw [← hI2] at hit
+    have : it.2.1 ∈ (autoItems s.edges.length (t.edges.map (fun e => ({ members := t.mem e, idx := none, attr := t.eattr e } : EdgeItem)))).map (fun it => it.2.1) :=
+      List.mem_map_of_mem (f := fun (it : Item) => it.2.1) hit
+    rw [autoItems_map_snd (fun p => p.1)] at this
+    simp only [List.map_map, List.mem_map, Function.comp] at this
+    obtain ⟨e, he, heq⟩ := this
+    rw [← heq] at hn; simp only [mem_dedup] at hn
+    rw [n3, n2]
+    have hnt := (ht.e2n e he n hn).1
+    by_cases hns : n ∈ s.nodes
+    · exact List.mem_append_left _ hns
+    · exact List.mem_append_right _ (List.mem_filter.2 ⟨hnt, by simpa using hns⟩))
+  have e3 : r3.1.edges = I1.map (·.1) := by rw [c2.edges, e2]; rfl
+  have e4 : r4.1.edges = I1.map (·.1) ++ I2.map (·.1) := by rw [d2.edges, e3]
+  -- the first batch is untouched by the second
+  have disj : ∀ x ∈ I1.map (·.1), x ∉ I2.map (·.1) := by
+    intro x hx hx2
+    rw [ids1] at hx; rw [ids2] at hx2
+    simp only [List.mem_map, List.mem_range'_1] at hx hx2
+    obtain ⟨j, ⟨_, hj⟩, rfl⟩ := hx
+    obtain ⟨k, ⟨hk, _⟩, heq⟩ := hx2
+    have := int_inj heq; omega
+  have m1 : (I1.map (·.1)).map r4.1.mem = s.edges.map s.mem := by
+    have : (I1.map (·.1)).map r4.1.mem = (I1.map (·.1)).map r3.1.mem :=
+      List.map_congr_left (fun x hx => d2.mem_old x (disj x hx))
+    rw [this, c2.map_mem, ← hI1, autoItems_map_snd (fun p => dedup p.1), List.map_map]
+    apply List.map_congr_left; intro e he
+    simp only [Function.comp]
+    rw [dedup_of_nodup (nodup_dedup _), dedup_of_nodup (hs.setE e he)]
+  have m2 : (I2.map (·.1)).map r4.1.mem = t.edges.map t.mem := by
+    rw [d2.map_mem, ← hI2, autoItems_map_snd (fun p => dedup p.1), List.map_map]
+    apply List.map_congr_left; intro e he
+    simp only [Function.comp]
+    rw [dedup_of_nodup (nodup_dedup _), dedup_of_nodup (ht.setE e he)]
+  have ea1 : (I1.map (·.1)).map r4.1.eattr = s.edges.map s.eattr := by
+    have : (I1.map (·.1)).map r4.1.eattr = (I1.map (·.1)).map r3.1.eattr :=
+      List.map_congr_left (fun x hx => d2.eattr_old x (disj x hx))
+    rw [this, c2.map_eattr, ← hI1, autoItems_map_snd (fun p => Attrs.update [] p.2), List.map_map]
+    apply List.map_congr_left; intro e he
+    simp only [Function.comp]
+    rw [update_nil (has.eattr e he), update_nil (has.eattr e he)]
+  have ea2 : (I2.map (·.1)).map r4.1.eattr = t.edges.map t.eattr := by
+    rw [d2.map_eattr, ← hI2, autoItems_map_snd (fun p => Attrs.update [] p.2), List.map_map]
+    apply List.map_congr_left; intro e he
+    simp only [Function.comp]
+    rw [update_nil (hat.eattr e he), update_nil (hat.eattr e he)]
+  refine ⟨d1, ?_, ?_, ?_, ?_, ?_, by first | rfl | trivial, ?_, wf_with i4.1 _ _ _⟩
+  · show r4.1.nodes = _; rw [n4, n3, n2]
+  · show r4.1.edges = _
+    rw [e4, ids1, ids2, ← List.map_append, List.range_eq_range']
+    congr 1
+    have := List.range'_append (s := 0) (m := s.edges.length) (n := t.edges.length) (step := 1)
+    simpa using this
+  · show r4.1.edges.map r4.1.mem = _
+    rw [e4, List.map_append, m1, m2]
+  · show r4.1.edges.map r4.1.eattr = _
+    rw [e4, List.map_append, ea1, ea2]
+  · intro n hn
+    show r4.1.nattr n = _
+    have hn4 : n ∈ r4.1.nodes := hn
+    have hn3 : n ∈ r3.1.nodes := by rw [← n4]; exact hn4
+    have hn2 : n ∈ r2.1.nodes := by rw [← n3]; exact hn3
+    rw [d2.nattr_old n hn3, c2.nattr_old n hn2]
+    have r1attr : ∀ m ∈ s.nodes, r1.1.nattr m = s.nattr m := by
+      intro m hm
+      have := a2.nattr_new m hm; simp only [id_eq, HG.empty, List.not_mem_nil, if_false] at this
+      rw [this, update_nil (has.nattr m hm), update_nil (has.nattr m hm)]
+    by_cases hnt : n ∈ t.nodes
+    · have := b2.nattr_new n hnt; simp only [id_eq] at this
+      rw [this, n1, update_nil (hat.nattr n hnt)]
+      simp only [hnt, if_true]
+      by_cases hns : n ∈ s.nodes
+      · simp only [hns, if_true]; rw [r1attr n hns]
+      · simp only [hns, if_false]
+    · have hns : n ∈ s.nodes := by
+        rw [n2] at hn2
+        rcases List.mem_append.1 hn2 with h | h
+        · exact h
+        · exact absurd (List.mem_filter.1 h).1 hnt
+      rw [b2.nattr_old n (by simpa using hnt), r1attr n hns]
+      simp only [hns, hnt, if_true, if_false]; rfl
+  · show r4.1.frozen = false
+    rw [d2.frozen, c2.frozen, b2.frozen, a2.frozen]; rfl
 end Xgi.C19
